@@ -208,7 +208,7 @@ class Inliner:
         self.inlined: Dict[int, Set[str]] = {}   # id(helper node) -> qualnames of the functions it was inlined into
 
     # ------------------------------------------------------------------ which callee may be inlined
-    def _target(self, func: FuncInfo, call: ast.Call, stack: Tuple[int, ...]) -> Optional[FuncInfo]:
+    def _target(self, func: FuncInfo, call: ast.Call, stack: Tuple[int, ...], cm: bool = False) -> Optional[FuncInfo]:
         fn = call.func
         name = fn.attr if isinstance(fn, ast.Attribute) else (fn.id if isinstance(fn, ast.Name) else None)
         local = self._local_function(func, fn)
@@ -223,7 +223,9 @@ class Inliner:
         if isinstance(g.node, ast.Lambda) or id(g.node) in stack or g is func:
             return None
         decos = g.decorator_names()
-        if any(d.split('.')[-1] not in ('staticmethod', 'classmethod') for d in decos):
+        if cm != any(d.split('.')[-1] == 'contextmanager' for d in decos):
+            return None
+        if any(d.split('.')[-1] not in ('staticmethod', 'classmethod', 'contextmanager') for d in decos):
             return None
         a = g.node.args
         if a.vararg or a.kwarg or a.kwonlyargs or a.posonlyargs:
@@ -236,7 +238,7 @@ class Inliner:
             if not (isinstance(recv, ast.Name) and (recv.id in ('self', 'cls') or self.prog.resolve_class(func.module, recv) is not None)):
                 return None
         for n in ast.walk(g.node):
-            if isinstance(n, (ast.Yield, ast.YieldFrom, ast.Global)) or (isinstance(n, ast.Nonlocal) and (local is None or n not in g.node.body)):
+            if isinstance(n, (ast.YieldFrom, ast.Global)) or (isinstance(n, ast.Yield) and not cm) or (isinstance(n, ast.Nonlocal) and (local is None or n not in g.node.body)):
                 return None
         if not call.args and not call.keywords and accessor_value(g) is not None:
             return None   # a zero-argument accessor names a location: expression canonicalisation handles it
@@ -361,6 +363,53 @@ class Inliner:
         # recurse into the inlined helper's own helper calls (it was resolved in g's scope: use g for resolution)
         return self._process_block(g, out, caller_names | _assigned_names(out), stack + (id(g.node),)) if len(stack) < MAX_DEPTH else out
 
+    def _inline_context_manager(self, func: FuncInfo, w: ast.With, names: Set[str], stack: Tuple[int, ...]) -> Optional[List[ast.stmt]]:
+        """``with self._cm(args): BODY`` for a private ``@contextmanager`` generator of the shape ``PRE; try: yield [v] finally: POST`` (or
+        ``PRE; yield [v]; POST``) is ``PRE; [x = v;] try: BODY finally: POST`` (resp. ``PRE; [x = v;] BODY; POST``)."""
+        call = w.items[0].context_expr
+        g = self._target(func, call, stack, cm=True)
+        if g is None:
+            return None
+        body = copy.deepcopy(_docstring_free(g.node.body))
+        ys = [n for st in body for n in ast.walk(st) if isinstance(n, ast.Yield)]
+        if len(ys) != 1 or any(isinstance(n, ast.Return) for st in body for n in ast.walk(st)):
+            return None
+
+        def is_yield_stmt(st: ast.stmt) -> bool:
+            return isinstance(st, ast.Expr) and st.value is ys[0]
+        shape = None
+        for i, st in enumerate(body):
+            if is_yield_stmt(st):
+                shape = ('plain', i)
+            elif isinstance(st, ast.Try) and not st.handlers and not st.orelse and len(st.body) == 1 and is_yield_stmt(st.body[0]) and i == len(body) - 1:
+                shape = ('finally', i)
+        if shape is None or any(n is ys[0] for j, st in enumerate(body) if j != shape[1] for n in ast.walk(st)):
+            return None
+        b = self._bind(g, call, names)
+        if b is None:
+            return None
+        pre, mapping, rename = b
+        sub = _Subst(mapping, rename)
+        body = [sub.visit(st) for st in body]
+        kind, i = shape
+        before = body[:i]
+        bind_as: List[ast.stmt] = []
+        if w.items[0].optional_vars is not None:
+            val = ys[0].value if ys[0].value is not None else ast.Constant(value=None)
+            bind_as = [ast.copy_location(ast.Assign(targets=[w.items[0].optional_vars], value=val, lineno=w.lineno, col_offset=w.col_offset), w)]
+        inner_body = self._process_block(func, w.body, names, stack)
+        if kind == 'finally':
+            tr = body[i]
+            new = ast.copy_location(ast.Try(body=inner_body, handlers=[], orelse=[], finalbody=tr.finalbody), w)
+            out = pre + before + bind_as + [new]
+        else:
+            out = pre + before + bind_as + inner_body + body[i + 1:]
+        for st in out:
+            ast.fix_missing_locations(st)
+        self.log.append(f'{func.qualname}: inlined {g.qualname} (context manager)')
+        self.inlined.setdefault(id(g.node), set()).add(func.qualname)
+        return out
+
     def _expr_inline(self, func: FuncInfo, e: ast.AST, stack: Tuple[int, ...]) -> ast.AST:
         inl = self
 
@@ -470,6 +519,21 @@ class Inliner:
                     else:
                         top.keywords[i - len(top.args)].value = new_arg
                     return pre + self._process_stmt(func, s, names | {tmp}, stack + (id(g.node),))
+        # a helper call that is the FIRST thing the statement's value evaluates, below the top level:  ``return self._h(x).pid`` /
+        # ``y = self._h(x)[0] + 1``  ->  ``tmp = self._h(x)`` (inlined) ; ``return tmp.pid``
+        if isinstance(s, (ast.Expr, ast.Assign, ast.AnnAssign, ast.Return)) and getattr(s, 'value', None) is not None and len(stack) < MAX_DEPTH + 2:
+            hold = _first_evaluated_call(s.value)
+            if hold is not None:
+                parent, field, inner = hold
+                g = self._target(func, inner, stack)
+                body = _docstring_free(g.node.body) if g is not None else []
+                if g is not None and not (len(body) == 1 and isinstance(body[0], ast.Return)):
+                    self._counter += 1
+                    tmp = f'{g.name.strip("_")}_value{self._counter}'
+                    pre = self._inline_stmt_call(func, s, inner, 'assign', [ast.Name(id=tmp, ctx=ast.Store())], names | {tmp}, stack)
+                    if pre is not None:
+                        setattr(parent, field, ast.copy_location(ast.Name(id=tmp, ctx=ast.Load()), inner))
+                        return pre + self._process_stmt(func, s, names | {tmp}, stack + (id(g.node),))
         # compound statements: recurse into blocks; simple ones: expression-level inlining
         if isinstance(s, ast.If) and len(stack) < MAX_DEPTH + 2:
             # ``if not self._helper(x): ...`` with a multi-statement helper evaluated FIRST in the test:
@@ -520,6 +584,15 @@ class Inliner:
             s.body = self._process_block(func, s.body, names, stack)
             s.orelse = self._process_block(func, s.orelse, names, stack)
             return [s]
+        if isinstance(s, ast.With) and len(s.items) > 1:
+            # ``with a, b: BODY`` is ``with a: with b: BODY``
+            inner = ast.copy_location(ast.With(items=s.items[1:], body=s.body), s)
+            outer = ast.copy_location(ast.With(items=s.items[:1], body=[inner]), s)
+            return self._process_stmt(func, outer, names, stack)
+        if isinstance(s, ast.With) and len(s.items) == 1 and isinstance(s.items[0].context_expr, ast.Call) and len(stack) < MAX_DEPTH + 2:
+            res_cm = self._inline_context_manager(func, s, names, stack)
+            if res_cm is not None:
+                return res_cm
         if isinstance(s, (ast.With, ast.AsyncWith)):
             s.body = self._process_block(func, s.body, names, stack)
             return [s]
@@ -714,6 +787,18 @@ def _pure_aliases(fn: ast.AST) -> Dict[str, ast.expr]:
             stores[n.name] = stores.get(n.name, 0) + 2
         elif isinstance(n, ast.Call) and isinstance(n.func, ast.Name) and n.func.id in ('setattr', 'delattr') and len(n.args) >= 2 and isinstance(n.args[1], ast.Constant):
             attr_stores.add(str(n.args[1].value))
+    # source-order position of every name store (a root bound once BEFORE the alias is made is as good as a never re-bound one)
+    pos: Dict[int, int] = {}
+    first_store: Dict[str, int] = {}
+
+    def number(nodes, k=[0]):
+        for n in nodes:
+            k[0] += 1
+            pos[id(n)] = k[0]
+            if isinstance(n, ast.Name) and isinstance(n.ctx, (ast.Store, ast.Del)):
+                first_store.setdefault(n.id, k[0])
+            number(ast.iter_child_nodes(n), k)
+    number(fn.body)
     for st in ast.walk(fn):
         if isinstance(st, ast.Assign) and len(st.targets) == 1 and isinstance(st.targets[0], ast.Name):
             v = st.value
@@ -725,7 +810,8 @@ def _pure_aliases(fn: ast.AST) -> Dict[str, ast.expr]:
                 root = root.value
             name = st.targets[0].id
             if ((attrs or (isinstance(root, ast.Name) and root.id not in ('None', 'True', 'False'))) and isinstance(root, ast.Name) and stores.get(name) == 1 and name not in params and name not in declared
-                    and stores.get(root.id, 0) == 0 and root.id not in declared and root.id != name and not (set(attrs) & attr_stores)):
+                    and (stores.get(root.id, 0) == 0 or (stores.get(root.id) == 1 and attrs and root.id not in params and first_store.get(root.id, 1 << 30) < pos.get(id(st.value), 0)))
+                    and root.id not in declared and root.id != name and not (set(attrs) & attr_stores)):
                 cands[name] = v
     return cands
 
@@ -739,3 +825,28 @@ def _propagate(fn: ast.AST, aliases: Dict[str, ast.expr]) -> None:
     for i, st in enumerate(fn.body):
         fn.body[i] = T().visit(st)
     ast.fix_missing_locations(fn)
+
+
+def _first_evaluated_call(e: ast.expr):
+    """(parent, field, call) for the call that is evaluated before anything else in ``e`` and is not ``e`` itself
+    (``H(...).a``, ``H(...)[i]``, ``H(...).m(x)``, ``await H(...)...``, ``H(...) + y``, ``H(...) == y``); None otherwise."""
+    parent, field, cur = None, None, e
+    while True:
+        if isinstance(cur, ast.Await):
+            parent, field, cur = cur, 'value', cur.value
+        elif isinstance(cur, (ast.Attribute, ast.Subscript, ast.Starred)):
+            parent, field, cur = cur, 'value', cur.value
+        elif isinstance(cur, ast.BinOp):
+            parent, field, cur = cur, 'left', cur.left
+        elif isinstance(cur, ast.Compare):
+            parent, field, cur = cur, 'left', cur.left
+        elif isinstance(cur, ast.UnaryOp):
+            parent, field, cur = cur, 'operand', cur.operand
+        elif isinstance(cur, ast.IfExp):
+            parent, field, cur = cur, 'test', cur.test
+        elif isinstance(cur, ast.Call):
+            if isinstance(cur.func, ast.Name) or _simple(cur.func):
+                return (parent, field, cur) if parent is not None and not isinstance(parent, ast.Await) else None
+            parent, field, cur = cur, 'func', cur.func
+        else:
+            return None
